@@ -13,10 +13,13 @@
      qos_copy q                Copy
      body_size32 n             uint32(message.BodySize)   (the callers' conversion: n mod 2^32)
      reserve rb ws size        the window loop of PopQos over the window list [ws] for a head
-                               message of body size [size] : bool * list qos.
+                               message of body size [size] : bool * list qos.  EVERY window is
+                               charged (1, uint32 size), also one without limits (/repo 9fdcd31).
                                [rb] = QosGen.popqos_rolls_back (regenerated from the source):
                                true  = a refusal undoes the charges already made (repaired code),
                                false = it leaves them (defect F02).
+     reserve_gen rb skip ws size  the same with [skip] = QosGen.popqos_skips_inactive: true = windows
+                               without limits are skipped (the loop before 9fdcd31, defect F49).
      release_all ws size       decQosAndConsumeNext's loop: Dec(1, uint32 size) on every window.
    Arithmetic is Go's: uint16/uint32 wrap is explicit ([mod 65536], [mod 4294967296]).
    Arguments [count]/[size] of inc/dec are the Go parameters (uint16/uint32): callers
@@ -86,12 +89,13 @@ Definition body_size32 (n : N) : N := n mod 4294967296.
 (* PopQos, the loop over qosList (the head message exists):
      allowed := true
      for _, q := range qosList {
-        if !q.IsActive() { continue }
+        [if !q.IsActive() { continue }]                              <- [skip]: gone since /repo 9fdcd31
         if !q.Inc(1, uint32(message.BodySize)) { allowed = false; [undo the charged ones;] break }
      }
    [charged] are the windows already visited (in order), [ws] the ones still to visit.
    The repaired code remembers the windows it charged and calls Dec(1, size) on each of
-   them when a later window refuses. *)
+   them when a later window refuses ([rb]).  Both shapes of the loop are regenerated from the
+   source as booleans (QosGen.popqos_rolls_back, QosGen.popqos_skips_inactive). *)
 Fixpoint undo_charges (charged : list (bool * qos)) (sz : N) : list qos :=
   match charged with
   | [] => []
@@ -99,19 +103,22 @@ Fixpoint undo_charges (charged : list (bool * qos)) (sz : N) : list qos :=
   | (false, q) :: t => q :: undo_charges t sz
   end.
 
-Fixpoint reserve_loop (rb : bool) (charged : list (bool * qos)) (ws : list qos) (sz : N) : bool * list qos :=
+Fixpoint reserve_loop (rb skip : bool) (charged : list (bool * qos)) (ws : list qos) (sz : N) : bool * list qos :=
   match ws with
   | [] => (true, map snd charged)
   | q :: t =>
-    if negb (qos_is_active q) then reserve_loop rb (charged ++ [(false, q)]) t sz
+    if skip && negb (qos_is_active q) then reserve_loop rb skip (charged ++ [(false, q)]) t sz
     else
       let '(ok, q') := qos_inc q 1 sz in
-      if ok then reserve_loop rb (charged ++ [(true, q')]) t sz
+      if ok then reserve_loop rb skip (charged ++ [(true, q')]) t sz
       else (false, (if rb then undo_charges charged sz else map snd charged) ++ q' :: t)
   end.
 
-Definition reserve (rb : bool) (ws : list qos) (size : N) : bool * list qos :=
-  reserve_loop rb [] ws (body_size32 size).
+Definition reserve_gen (rb skip : bool) (ws : list qos) (size : N) : bool * list qos :=
+  reserve_loop rb skip [] ws (body_size32 size).
+
+(* the loop as the code stands: every window of the list is charged, also one without limits *)
+Definition reserve (rb : bool) (ws : list qos) (size : N) : bool * list qos := reserve_gen rb false ws size.
 
 (* decQosAndConsumeNext: every window of the delivery gets Dec(1, uint32(size)) *)
 Definition release_all (ws : list qos) (size : N) : list qos :=
@@ -136,7 +143,7 @@ Definition qos_charged (q : qos) (c s : N) : qos :=
 Definition qos_released (q : qos) (c s : N) : qos :=
   mkQos (prefetchCount q) (currentCount q - c) (prefetchSize q) (currentSize q - s).
 
-(* what a successful PopQos does to a window: active windows are charged (1, size) *)
+(* what a successful PopQos did to a window while it skipped windows without limits (before 9fdcd31) *)
 Definition charge_if_active (sz : N) (q : qos) : qos :=
   if qos_is_active q then qos_charged q 1 sz else q.
 
